@@ -2088,13 +2088,51 @@ def cast_probe_results(impl, form: str, s: str, t: str):
     return out
 
 
-def cast_verdict(results) -> str:
-    """Y: every probe value is cast; N: every one is refused as a type error (XPTY0004); M: anything else"""
+def cast_verdict(results, form: str = 'cast') -> str:
+    """Y: every probe value is cast; N: every one is refused — by the cast expression as a type error (XPTY0004); the
+    constructor function reports a refused source type as FORG0001 like a bad value (finding F10l, pinned by the suite), so
+    for that path N is observed as "no probe value succeeds" (every M cell of the table has a succeeding probe); M: else"""
     if all(r == 'ok' for r in results):
         return 'Y'
-    if all(r == 'ERR:XPTY0004' for r in results):
+    if form == 'cast' and all(r == 'ERR:XPTY0004' for r in results):
+        return 'N'
+    if form == 'ctor' and all(r != 'ok' for r in results):
         return 'N'
     return 'M'
+
+
+def cast_table_cases(run: Run, impl: Impl) -> None:
+    """every probe value of every source type through `cast as`, the constructor function and `castable as` for every target
+    type, judged cell by cell against the F&O table executed by the Lean driver: N — refused (XPTY0004 from the cast
+    expression; any error from the constructor function, F10l); Y — accepted; M — never a type error; and for a pair with a
+    derived type: permitted iff the pair of table ancestors is not N"""
+    st = run.stats
+    pairs = [(a, b) for a in ALL_CAST_TYPES for b in ALL_CAST_TYPES]
+    answers = run.driver('C10', [f'op=castv A={a} B={b}' for a, b in pairs])
+    for (a, b), ans in zip(pairs, answers):
+        f = dict(kv.split('=', 1) for kv in ans.split(' ') if '=' in kv)
+        verdict, allowed = f['spec'].split(':')
+        table_cell = a in CAST_TYPES and b in CAST_TYPES
+        for e in CAST_PROBES[a]:
+            case = {'source': e, 'source_type': a, 'target': b, 'table_verdict': verdict, 'permitted': allowed}
+            st.case(['cast-table', e, b], nontrivial=True)
+            kc, rc = impl.xpath('31', '1.1', f'({e}) cast as xs:{b}', {})
+            kf, rf = impl.xpath('31', '1.1', f'xs:{b}({e})', {})
+            kb, rb = impl.xpath('31', '1.1', f'({e}) castable as xs:{b}', {})
+            got = {'cast': 'ok' if kc == 'ok' else rc, 'ctor': 'ok' if kf == 'ok' else rf,
+                   'castable': ('1' if rb is True else '0' if rb is False else f'?{rb!r}') if kb == 'ok' else rb}
+            st.count('cast-table:' + verdict)
+            if allowed == '0':
+                want = {'cast': 'ERR:XPTY0004', 'ctor': got['ctor'] if got['ctor'] != 'ok' else 'ERR', 'castable': '0'}
+            elif table_cell and verdict == 'Y':
+                want = {'cast': 'ok', 'ctor': 'ok', 'castable': '1'}
+            else:    # M, or a derived type: the value decides, but never as a type error of the cast expression
+                want = dict(got)
+                if got['cast'] == 'ERR:XPTY0004':
+                    want['cast'] = 'ok-or-value-error'
+            if got != want:
+                run.disagree(Disagreement(case, impl=repr(got), spec=repr(want), what='cast-vs-casting-table',
+                                          site='_xpath2_operators.py cast / _xpath2_constructors.py'))
 
 
 def translate_tables(run: Run) -> dict:
@@ -2215,18 +2253,20 @@ def translate_tables(run: Run) -> dict:
     impl_ = Impl()
     cast_tables = {}
     for form in ('cast', 'ctor'):
-        verd = {(a, b): cast_verdict(cast_probe_results(impl_, form, a, b)) for a in ALL_CAST_TYPES for b in ALL_CAST_TYPES}
+        types_ = ALL_CAST_TYPES if form == 'cast' else CAST_TYPES
+        verd = {(a, b): cast_verdict(cast_probe_results(impl_, form, a, b), form) for a in types_ for b in types_}
         cast_tables[form] = verd
         cname = 'Cast' if form == 'cast' else 'Ctor'
         out.append(f'/-- verdicts of `{"E cast as xs:T" if form == "cast" else "xs:T(E)"}` (XPath 3.1 parser, XSD 1.1) on the probe values '
-                   'of every source type: Y all succeed, N all raise XPTY0004, M otherwise; F&O table types, row-major -/')
+                   'of every source type: Y all succeed, N all refused, M otherwise; F&O table types, row-major -/')
         out.append(f'def castVerdicts{cname} : List (String × String × String) := [')
         out.append(',\n'.join('  ' + ', '.join(f'({lean_str(a)}, {lean_str(b)}, {lean_str(verd[(a, b)])})' for b in CAST_TYPES)
                               for a in CAST_TYPES) + ']')
-        out.append(f'/-- the same for all constructible atomic types: is the pair permitted (verdict other than N) -/')
-        out.append(f'def castAllowed{cname} : List (String × String × Bool) := [')
-        out.append(',\n'.join('  ' + ', '.join(f'({lean_str(a)}, {lean_str(b)}, {"true" if verd[(a, b)] != "N" else "false"})'
-                                                for b in ALL_CAST_TYPES) for a in ALL_CAST_TYPES) + ']')
+        if form == 'cast':
+            out.append('/-- the same for all constructible atomic types: is the pair permitted (verdict other than N) -/')
+            out.append('def castAllowedCast : List (String × String × Bool) := [')
+            out.append(',\n'.join('  ' + ', '.join(f'({lean_str(a)}, {lean_str(b)}, {"true" if verd[(a, b)] != "N" else "false"})'
+                                                    for b in ALL_CAST_TYPES) for a in ALL_CAST_TYPES) + ']')
     out.append('end EPV.Gen.C10')
     text = '\n'.join(out) + '\n'
     gen = LEAN / 'EPV' / 'Gen' / 'C10Tables.lean'
@@ -2279,6 +2319,7 @@ def search(run: Run):
     cast_cases(sub, impl)
     tz_cases(sub, impl)
     history_cases(sub, impl)
+    cast_table_cases(sub, impl)
     run.notes.append(f'search: {len(cases)} exhaustive small-scope lexical cases + canon + binary, '
                      f'{len(sub.disagreements)} disagreements')
     return sub.disagreements
@@ -2332,7 +2373,7 @@ def body(run: Run) -> int:
         'xs:anyURI: urllib.parse.urlparse (does it raise, which path does it return) is an oracle of the Lean model '
         'Lex.anyUriCtor; the model covers the library\'s own checks, XSD 1.1 makes every string an anyURI literal',
         'xs:anyAtomicType, xs:NOTATION, xs:error have no usable constructor and are excluded']
-    run.prove(['EPV.Props.C10', 'EPV.Props.C10Tables', 'EPV.Props.C10Tz', 'EPV.Props.C10Dur', 'EPV.Props.C10Greg', 'EPV.Props.C10Names', 'EPV.Props.C10Date', 'EPV.Props.C10Str', 'EPV.Props.C10Uri'], ['EPV.Spec.XSDLexical', 'EPV.Model.Lexical'])
+    run.prove(['EPV.Props.C10', 'EPV.Props.C10Tables', 'EPV.Props.C10Tz', 'EPV.Props.C10Dur', 'EPV.Props.C10Greg', 'EPV.Props.C10Names', 'EPV.Props.C10Date', 'EPV.Props.C10Str', 'EPV.Props.C10Uri', 'EPV.Props.C10CastTable'], ['EPV.Spec.XSDLexical', 'EPV.Model.Lexical'])
     try:
         impl = Impl()
         rng = run.rng
@@ -2363,6 +2404,7 @@ def body(run: Run) -> int:
         matrix_cases(run, impl)
         qname_value_cases(run, impl)
         funcitem_cases(run, impl)
+        cast_table_cases(run, impl)
     except DriverError as e:
         run.broken.append('driver:C10 ' + str(e)[:300])
     return run.finish('proof', shrink=shrink, search=search)
